@@ -155,7 +155,7 @@ class Ctx:
                     if e["call"] == "write_basis" and e.get("rval") == 0:
                         out.append(dict(call="basis_file", h=e["h"], b=e["b"], file=e["file"], lines=pipeline.read_basis_file(os.path.join(self.dir, e["file"]))))
                 evs = out
-            # the token stream of every LP-format file the library wrote becomes an event (binding of spec/LPWrite.tla to the writer)
+            # the tokens / content of every LP / MPS file the library wrote become an event (binding of spec/LPWrite.tla, MPSWrite.tla to the writers)
             if any(e["call"] == "write_prob" for e in evs):
                 evs = pipeline.add_lp_text(evs, self.dir)
             pipeline.renumber(evs)
